@@ -238,7 +238,7 @@ func genRequestOf(t *rapid.T, m *model, op, label string) (step, bool) {
 }
 
 func genChangeStep(t *rapid.T, m *model, label string) ([]step, bool) {
-	ops := []string{"move", "move", "move", "move_coord", "move_controller", "create", "create", "delete", "add_broker", "remove_broker", "move_port"}
+	ops := []string{"move", "move", "move", "move_coord", "move_controller", "create", "create", "delete", "add_broker", "remove_broker", "move_port", "outage"}
 	op := rapid.SampledFrom(ops).Draw(t, label+"op")
 	return genChangeOf(t, m, op, label)
 }
@@ -315,6 +315,14 @@ func genChangeOf(t *rapid.T, m *model, op, label string) ([]step, bool) {
 			p := rapid.IntRange(0, len(ls)-1).Draw(t, label+"p")
 			ls[p] = id
 			out = append(out, step{Op: "move", Topic: topic, Parts: []int32{int32(p)}, To: id})
+		}
+		return out, true
+	case "outage":
+		m.dirty = true
+		out := []step{{Op: "outage", N: rapid.IntRange(1, 4).Draw(t, label+"ttls") * 120}}
+		// something to catch up with afterwards
+		if ch, ok := genChangeOf(t, m, "move", label+"after"); ok {
+			out = append(out, ch...)
 		}
 		return out, true
 	case "move_port":
@@ -546,6 +554,43 @@ func genCase(t *rapid.T, stratum int) routeCase {
 			}
 		default:
 			add(step{Op: "sleep", N: rapid.IntRange(1, c.TTLms).Draw(t, label+"ms")})
+		}
+	}
+	if nb >= 2 && rapid.IntRange(0, 3).Draw(t, "idZero") == 0 {
+		// node ids start at 0 in most real clusters: relabel the highest initial broker id as 0 everywhere
+		from := int32(nb)
+		re := func(id int32) int32 {
+			if id == from {
+				return 0
+			}
+			return id
+		}
+		for i := range c.Brokers {
+			c.Brokers[i].ID = re(c.Brokers[i].ID)
+		}
+		for i := range c.Bootstrap {
+			c.Bootstrap[i] = re(c.Bootstrap[i])
+		}
+		c.Controller = re(c.Controller)
+		for i := range c.Topics {
+			for p := range c.Topics[i].Leaders {
+				c.Topics[i].Leaders[p] = re(c.Topics[i].Leaders[p])
+			}
+		}
+		for i := range c.Coords {
+			c.Coords[i].Broker = re(c.Coords[i].Broker)
+		}
+		for i := range c.Steps {
+			st := &c.Steps[i]
+			switch st.Op {
+			case "move", "move_coord", "move_controller", "remove_broker":
+				st.To = re(st.To)
+			}
+			if st.Broker != nil && (st.Op == "remove_broker" || st.Op == "move_port") {
+				b := *st.Broker
+				b.ID = re(b.ID)
+				st.Broker = &b
+			}
 		}
 	}
 	return c
